@@ -489,7 +489,7 @@ def format_round_trip(rep: Report) -> None:
     for bad in ((1, 3, "nearest", 0), (4, 3, "nearest", 2)):
         try:
             FPFormat(*bad)
-            rep.violation(f"FPFormat{bad} accepted (spec: rejected)", {"format": list(bad)}, key="format_accepts_invalid")
+            rep.beyond(f"FPFormat{bad} accepted (spec Format.tla: rejected)")   # construction rules are outside C15's statement
         except AssertionError:
             pass
 
